@@ -523,9 +523,16 @@ class EigenSolve(Module):
             alpha = - phi @ dphi
             r = dphi + alpha * B.T @ phi
 
-            # Solve particular solution
+            # Solve particular solution. The matrix (A - lam*B) is singular by construction; fix the largest entry of the
+            # eigenvector to zero (Nelson's method), which leaves a regular system for the remaining entries
+            k = np.argmax(np.abs(phi))
+            r[k] = 0.0
             if self.adjoint_solvers_need_update or self.solvers[i] is None:
-                Z = A - lam * B
+                Z = sps.lil_matrix(A - lam * B)
+                Z[k, :] = 0.0
+                Z[:, k] = 0.0
+                Z[k, k] = 1.0
+                Z = Z.tocsc()
                 if not hasattr(self, 'solvers'):
                     self.solvers = [None for _ in range(W.size)]
                 if self.solvers[i] is None:  # Solver must be able to solve indefinite system
